@@ -359,8 +359,10 @@ def explore(mod, tier, master, runs_override=None, workers=None, no_selftest=Fal
                 futs[ex.submit(_work, pid, tier, master, ch, enum_part)] = ch
         deadline = t0 + wall_cap
         pending = set(futs)
-        try:
-            for f in as_completed(futs, timeout=max(5.0, deadline - time.time())):
+        extensions = 0
+        while True:
+          try:
+            for f in as_completed(list(pending), timeout=max(5.0, deadline - time.time())):
                 pending.discard(f)
                 try:
                     r = f.result()
@@ -383,8 +385,14 @@ def explore(mod, tier, master, runs_override=None, workers=None, no_selftest=Fal
                     agg['samples'] += r['samples'][:1]
                 if time.time() > deadline:
                     break
-        except TimeoutError:
-            pass
+            break
+          except TimeoutError:
+            # a heavily loaded machine: give the workers more time rather than judge (or fail) on next to nothing
+            if agg['n'] < max(20, total // 50) and extensions < 3:
+                extensions += 1
+                deadline = time.time() + wall_cap
+                continue
+            break
         for f in pending:
             if not f.done():
                 if f.cancel():
